@@ -28,7 +28,7 @@ def extract(mod, T, sync, tid, parsed, domap=0):
                 a = it.call('@h_mutex_addr', [app, 2, i]); names[(a.obj, a.off)] = 'out%d' % i
         ev = it.events; cnt = {'n': 0}
         def fresh(p): cnt['n'] += 1; return z3.Int('%s!%d' % (p, cnt['n']))
-        def mname(p): return names.get((p.obj, p.off), 'other:%d+%d' % (p.obj, p.off))
+        def mname(p): return names.get((p.obj, p.off), ('app+%d' % (p.off - app.off)) if p.obj == app.obj else 'other:%d+%d' % (p.obj, p.off))
         first_lock = []
         def lock(it, a):
             e = ('lock', mname(a[0]))
@@ -98,6 +98,12 @@ class Product:
     def __init__(s, T, Fmax, sync, autos):
         s.T = T; s.F = Fmax; s.sync = sync; s.autos = autos       # autos[t] = list of (segments, guards) per iteration path
         s.mutexes = ['rd'] + (['in%d' % i for i in range(T)] + ['out%d' % i for i in range(T)] if sync else []) + ['mergemx']
+        # any further mutex the workers use (a member the harness does not name) takes part in the product as an ordinary mutex
+        for t in range(T):
+            for segs, g in autos[t]:
+                for seg in segs:
+                    for e in seg:
+                        if e[0] in ('lock', 'unlock') and e[1] not in s.mutexes: s.mutexes.append(e[1])
         # worker locations: (path-prefix of segments) -> id ; 0 = iteration start; terminal = -1
         s.loc = []
         for t in range(T):
